@@ -186,18 +186,19 @@ func (rc *RunCtx) collect() {
 
 // PropDef describes how one property is explored and decided.
 type PropDef struct {
-	ID        string
-	Title     string
-	Config    func(rc *RunCtx)            // exploring only: choose Cfg and Parties from rc.Rng
-	Run       func(rc *RunCtx) *Violation // runs inside a synctest bubble
-	OwnsCrash bool                        // a fatal crash of the library is a violation of this property
-	Rule      string                      // how cases are generated, what makes one non-trivial/distinct
-	Assume    []string
-	MaxSteps  int
-	QuickS    int // default wall budget (s)
-	ThoroughS int
-	Fixed     func(tier string) int // >0: number of runs is fixed (enumeration), index = run number
-	Level     string                // evidence level (default exploration)
+	ID           string
+	Title        string
+	Config       func(rc *RunCtx)            // exploring only: choose Cfg and Parties from rc.Rng
+	Run          func(rc *RunCtx) *Violation // runs inside a synctest bubble
+	OwnsCrash    bool                        // a fatal crash of the library is a violation of this property
+	Rule         string                      // how cases are generated, what makes one non-trivial/distinct
+	Assume       []string
+	MaxSteps     int
+	QuickS       int // default wall budget (s)
+	ThoroughS    int
+	Fixed        func(tier string) int // >0: number of runs is fixed (enumeration), index = run number
+	Level        string                // evidence level (default exploration)
+	NondetReplay func(rc *RunCtx) bool // the run's schedule is not controlled by the simulator (free-running threads): report by seed, do not shrink
 }
 
 var Props = map[string]*PropDef{}
